@@ -5,6 +5,7 @@ import (
 	"go/ast"
 	"go/token"
 	"go/types"
+	"regexp"
 	"strings"
 
 	"gvc/internal/contract"
@@ -1046,6 +1047,8 @@ func (e *Engine) defaultPure(fn *types.Func, key string) *contract.Func {
 	return c
 }
 
+var castpRe = regexp.MustCompile(`^castp\((\w+),\s*(\w+)\)$`)
+
 // noteCallFields records which field indices a callee's assigns clause names.
 func (e *Engine) noteCallFields(call *ast.CallExpr) {
 	fn := e.staticCallee(call)
@@ -1076,11 +1079,21 @@ func (e *Engine) noteCallFields(call *ast.CallExpr) {
 		}
 		base, field := a[:i], a[i+1:]
 		var t types.Type
+		if m := castpRe.FindStringSubmatch(base); m != nil && e.cur != nil && e.cur.Pkg != nil {
+			// castp(<param>, T).f: the object is the argument, viewed as a *T
+			if tn, ok := e.cur.Pkg.Scope().Lookup(m[2]).(*types.TypeName); ok {
+				for k, pn := range con.Params {
+					if pn == m[1] && k < sig.Params().Len() {
+						base, t = m[1], tn.Type()
+					}
+				}
+			}
+		}
 		if sig.Recv() != nil && base == con.Recv {
 			t = sig.Recv().Type()
 		}
 		for k, pn := range con.Params {
-			if pn == base && k < sig.Params().Len() {
+			if pn == base && k < sig.Params().Len() && t == nil {
 				t = sig.Params().At(k).Type()
 			}
 		}
